@@ -47,7 +47,7 @@ CLAIMED = {
         design_ref='DESIGN.md STATUS, 7 (C04)', note='E2 (struct.unpack is the IEEE-754 value), E3 (real arithmetic); FloatDataEncoding._get_raw_value bounded',
         technique='contract-based deductive verification: AST->VC symbolic execution of the real functions against sidecar contracts, z3/cvc5; bounded stand-in for the float bit-pattern decoding'),
     'C05': dict(cat=P,
-        text='PROVED: parse_ccsds_packet descends only to the unique child whose restriction criteria all hold (oracle nvalid == 1; the child satisfies rc_match and is one of the inheritors), returns normally only at a concrete container with no matching child, and raises UnrecognizedPacketTypeError exactly at an abstract dead end or an ambiguity, carrying the packet decoded so far (payload obligation); the result is the argument packet. PROVED: the entry-list walk SequenceContainer.parse decodes exactly the parameters of the entry list, in entry-list order, each once, nested container references expanded in place (ghost event log == old log ++ flat(self), recursive spec flat_upto, whatever the packet holds: no early exit, no skipping), and Parameter.parse (plain parameter types) stores the decoded value under its own name, a new name at the END of the packet, other items untouched. The criteria evaluators underneath are proved (C06). Header/user-data views, enumerated/boolean/time parameters inside the walk, and inheritor back-population by the XML reader are checked against ref_parse on random container trees (bounded), incl. zero-width trailing entries and packets cut to the consumed length.',
+        text='PROVED: parse_ccsds_packet descends only to the unique child whose restriction criteria all hold (oracle nvalid == 1; the child satisfies rc_match and is one of the inheritors), returns normally only at a concrete container with no matching child, and raises UnrecognizedPacketTypeError exactly at an abstract dead end or an ambiguity, carrying the packet decoded so far (payload obligation); the result is the argument packet. PROVED: the entry-list walk SequenceContainer.parse decodes exactly the parameters of the entry list, in entry-list order, each once, nested container references expanded in place (ghost event log == old log ++ flat(self), recursive spec flat_upto, whatever the packet holds: no early exit, no skipping), and Parameter.parse (every parameter type class except float-/string-encoded enumerations) stores the decoded value under its own name, a new name at the END of the packet, other items untouched. The criteria evaluators underneath are proved (C06). Header/user-data views and inheritor back-population by the XML reader are checked against ref_parse on random container trees (bounded), incl. zero-width trailing entries and packets cut to the consumed length.',
         design_ref='DESIGN.md STATUS, 7 (C05)', note='definition validity predicate defn_ok assumed of the input (shape invariants the decoders require); from_xtce bounded (E6)',
         technique='contract-based deductive verification: AST->VC symbolic execution of the real functions against sidecar contracts, z3/cvc5; ghost event log and recursive spec functions; bounded stand-in for the XML reader'),
     'C06': dict(cat=P,
@@ -55,11 +55,11 @@ CLAIMED = {
         design_ref='DESIGN.md STATUS, 7 (C06)', note='bool- and bytes-valued operands and mixed text/number operands are outside the statement (contract requires)',
         technique='contract-based deductive verification: AST->VC symbolic execution of the real functions against sidecar contracts, z3/cvc5; opaque spec functions with reveal'),
     'C07': dict(cat=P,
-        text="PROVED: the linear adjuster closure (ints; floats over the reals with ValueError iff slope*x+intercept is not whole), String/BinaryDataEncoding._calculate_size (fixed | FIRST matching lookup incl. value 0 | referenced raw-or-calibrated value through the adjustment), _get_raw_buffer (whole buffer right-padded), BinaryDataEncoding.parse_value (exactly the field's bits, left-padded; cursor == old + computed length, negative lengths raise) and StringDataEncoding.parse_value (raw value = buffer; text = decode of the whole buffer | of the part before the FIRST termination character at a character boundary | of the part whose bit length the leading size tag gives), and the parameter-type delegation. bytes.decode is an uninterpreted function (E4). Lengths referencing float-valued parameters and the codecs are covered by the bounded stand-in against reference decoders.",
-        design_ref='DESIGN.md STATUS, 7 (C07)', note="E4 (codecs are CPython's); packets whose length references are floats: bounded",
+        text="PROVED: the linear adjuster closure (ints; floats over the reals with ValueError iff slope*x+intercept is not whole), String/BinaryDataEncoding._calculate_size (fixed | FIRST matching lookup incl. value 0 | referenced raw-or-calibrated value through the adjustment), _get_raw_buffer (whole buffer right-padded), BinaryDataEncoding.parse_value (exactly the field's bits, left-padded; cursor == old + computed length, negative lengths raise) and StringDataEncoding.parse_value (raw value = buffer; text = decode of the whole buffer | of the part before the FIRST termination character at a character boundary | of the part whose bit length the leading size tag gives), and the parameter-type delegation. bytes.decode is an uninterpreted function (E4). Float-valued length references are covered (through the adjustment over the reals, which must give a whole number, else truncated); text-valued references are left unspecified (outside the statement). The codecs are CPython's (E4); the same contracts run natively against reference decoders.",
+        design_ref='DESIGN.md STATUS, 7 (C07)', note="E4 (codecs are CPython's)",
         technique='contract-based deductive verification: AST->VC symbolic execution of the real functions against sidecar contracts, z3/cvc5; bounded stand-in for float-valued length references'),
     'C08': dict(cat=P,
-        text='PROVED over the reals: PolynomialCalibrator.calibrate (sum a_i*x^n_i), SplineCalibrator order 0 and 1 (step / chord interpolation over the CLOSED range incl. the last knot, extrapolation only when enabled else CalibrationError), ContextCalibrator.calibrate, NumericDataEncoding.parse_value (FIRST context calibrator whose criteria hold, else default, else the raw value; calibrated results are FloatParameter; raw_value is the uncalibrated field), EnumeratedParameterType.parse_value over integer encodings (label of the RAW value, ValueError path for unlisted values, raw_value kept) and BooleanParameterType.parse_value for all four encodings (truthiness of the RAW value). Float rounding is not claimed (S3); float- and string-encoded enumerations and time types are checked by the bounded stand-in through whole-packet decoding against exact rationals.',
+        text='PROVED over the reals: PolynomialCalibrator.calibrate (sum a_i*x^n_i), SplineCalibrator order 0 and 1 (step / chord interpolation over the CLOSED range incl. the last knot, extrapolation only when enabled else CalibrationError), ContextCalibrator.calibrate, NumericDataEncoding.parse_value (FIRST context calibrator whose criteria hold, else default, else the raw value; calibrated results are FloatParameter; raw_value is the uncalibrated field), EnumeratedParameterType.parse_value over integer encodings (label of the RAW value, ValueError path for unlisted values, raw_value kept) and BooleanParameterType.parse_value for all four encodings (truthiness of the RAW value). Time parameter types decode through the same delegation. Float rounding is not claimed (S3); float- and string-encoded enumerations are checked by the bounded stand-in through whole-packet decoding against exact rationals.',
         design_ref='DESIGN.md STATUS, 7 (C08)', note='rounding not claimed: native comparison up to 1e-9 relative (S3)',
         technique='contract-based deductive verification: AST->VC symbolic execution of the real functions against sidecar contracts, z3/cvc5; bounded stand-in for float/string-encoded enumerations'),
     'C09': dict(cat=X,
@@ -76,7 +76,7 @@ CLAIMED = {
         design_ref="DESIGN.md 7 (C10)", note="E1; decode-time exceptions of a definition's decoders belong to C07/C08/C14",
         technique="contract-based deductive verification incl. termination (loop variants)"),
     'C11': dict(cat=P,
-        text="packet_generator is PROVED against the proved framer contract: every yielded item is the raw packet (headers only), the packet object returned by parse_ccsds_packet for THIS raw packet alone (bytes(packet.raw_data) == the raw packet when unsegmented or combining is off), or - only when requested - the error object of an unrecognized packet whose partial_data is that packet; at most one item per raw packet; the only state carried between iterations is the segment-group dict, which is unchanged whenever combining is off (step clause `alone`). parse_ccsds_packet's frame obligations show it writes nothing but the packet's items and cursor. Interleaving of several generators and `canon_definition` unchanged are checked by the bounded stand-in (ref_stream), incl. one-APID streams that alternate recognizable / unrecognizable / ambiguous packets.",
+        text="packet_generator is PROVED against the proved framer contract (bytes, file and socket sources): every yielded item is the raw packet (headers only), the packet object returned by parse_ccsds_packet for THIS raw packet alone (bytes(packet.raw_data) == the raw packet when unsegmented or combining is off), or - only when requested - the error object of an unrecognized packet whose partial_data is that packet; at most one item per raw packet; the only state carried between iterations is the segment-group dict, which is unchanged whenever combining is off (step clause `alone`). parse_ccsds_packet's frame obligations show it writes nothing but the packet's items and cursor. Interleaving of several generators and `canon_definition` unchanged are checked by the bounded stand-in (ref_stream), incl. one-APID streams that alternate recognizable / unrecognizable / ambiguous packets.",
         design_ref='DESIGN.md STATUS, 7 (C11)', note="generators only, no threads; definition objects are immutable records in the prover's model (S5), the canonical-dump comparison is native",
         technique='contract-based deductive verification: AST->VC symbolic execution of the real functions against sidecar contracts, z3/cvc5; bounded stand-in for interleaved generators'),
     'C12': dict(cat=P,
